@@ -28,6 +28,8 @@ mod region;
 mod region_metadata;
 mod region_state;
 mod regions;
+#[cfg(anydb_verif)]
+pub mod verif;
 
 pub use disk_usage::*;
 pub use error::*;
@@ -93,7 +95,11 @@ impl Database {
         let mut file_len = file.metadata()?.len() as usize;
         if file_len < min_len {
             file.set_len(min_len as u64)?;
+            #[cfg(anydb_verif)]
+            verif::io(|| verif::IoEvent::SetLen { meta: false, len: min_len });
             file.sync_all()?;
+            #[cfg(anydb_verif)]
+            verif::io(|| verif::IoEvent::Sync { meta: false });
             file_len = min_len;
         }
 
@@ -152,6 +158,8 @@ impl Database {
             self, target_len, len
         );
         file.set_len(target_len as u64)?;
+        #[cfg(anydb_verif)]
+        verif::io(|| verif::IoEvent::SetLen { meta: false, len: target_len });
         self.0.cached_file_len.store(target_len, Ordering::Relaxed);
         *mmap = create_mmap(&file)?;
         Ok(())
@@ -212,6 +220,8 @@ impl Database {
     #[inline]
     pub(crate) fn write(&self, start: usize, data: &[u8]) {
         write_to_mmap(&self.mmap(), start, data);
+        #[cfg(anydb_verif)]
+        verif::io(|| verif::IoEvent::WData { off: start, bytes: data.to_vec() });
     }
 
     pub(crate) fn copy(&self, src: usize, dst: usize, len: usize) -> Result<()> {
@@ -232,6 +242,8 @@ impl Database {
 
         let mmap = self.mmap();
         write_to_mmap(&mmap, dst, &mmap[src..src_end]);
+        #[cfg(anydb_verif)]
+        verif::io(|| verif::IoEvent::WData { off: dst, bytes: mmap[src..src_end].to_vec() });
         Ok(())
     }
 
@@ -346,6 +358,8 @@ impl Database {
 
         if flush_start < flush_end {
             let mmap = self.mmap();
+            #[cfg(anydb_verif)]
+            verif::io(|| verif::IoEvent::FlushAsync { meta: false });
             if let Err(e) = mmap.flush_async_range(flush_start, flush_end - flush_start) {
                 drop(mmap);
                 for (region, bounds) in dirty_regions {
@@ -360,6 +374,8 @@ impl Database {
         // Data must be durable before metadata (crash safety).
         self.regions().flush()?;
         self.file().sync_data()?;
+        #[cfg(anydb_verif)]
+        verif::io(|| verif::IoEvent::Sync { meta: false });
         self.regions().sync_data()?;
         for (region, _) in &dirty_regions {
             region.meta().mark_clean();
@@ -505,6 +521,8 @@ impl Database {
             debug!("{}: punch_holes syncing after {} punches", self, punched);
             let file = self.file();
             file.sync_data()?;
+            #[cfg(anydb_verif)]
+            verif::io(|| verif::IoEvent::Sync { meta: false });
         }
 
         Ok(())
